@@ -43,10 +43,19 @@ RULE = ("documented box: spot in {1,50,100}, r in {0,.02,.05}, d in {0,.01}, T i
 MODELLED = ["numpy elementwise semantics of COSPricer.xi/psi/u_put (translated pointwise by py2coq); np.divide(..., where=mask) leaves "
             "the masked cells uninitialised: modelled by an arbitrary real `uninit` (the theorems show the result never depends on it)",
             "scipy.stats.norm.cdf: abstract Phi (symmetric, [0,1]-valued, monotone) in the theorems; the Gaussian integral PhiR in the "
-            "Interval cases (that PhiR satisfies Phi_like is NOT proved)",
+            "Interval cases; Phi_like PhiR IS proved (C18_PhiR_is_Phi_like: symmetry, monotonicity, and 0 <= PhiR <= 1 from the Gaussian "
+            "integral bound (int_0^x e^{-t^2/2})^2 <= pi/2); PhiR -> 1 at +oo (hypothesis of C18_bs_sigma_to_zero) is NOT proved; that "
+            "norm.cdf IS PhiR is tied only by the Interval/integral cases (1e-11)",
             "COSPricer._pricing_formula / density: hand models cos_sum / cos_density_impl (finite sums, real part termwise; the complex numbers "
-            "cf(u_k) e^{..} enter as the real data A_k resp. B_k), each tied by Interval cases on pricers with 3-5 terms; COSPricer.put's "
-            "x = log(S/K), _interval_a_b (cumulants, bare except) and the characteristic functions themselves are NOT modelled",
+            "cf(u_k) e^{..} enter as the real data A_k resp. B_k), each tied by Interval cases on pricers with 3-5 terms; the compositions "
+            "cos_put_price / cos_call_price / cos_digital_price / cos_cdf_value (Model/CosExt.v: generated cos_put, cos_call, cos_digital, cos_cdf, "
+            "cos_pricing_formula around cos_sum) are tied through the PUBLIC entry points put / call / digital / cdf of few-term pricers; "
+            "COSPricer._interval_a_b: delta and the returned pair are generated (cos_window_delta, cos_window), the cumulants enter as data and "
+            "the bare except around cumulant6 is re-enacted by the harness (c6 = 0); COSPricer.put's x = log(S/K) and the characteristic "
+            "functions themselves are NOT modelled (x enters through the data A_k)",
+            "cos_u_call / cos_u_fwd (Model/CosExt.v) are yardsticks built from the generated xi / psi, NOT code: the code prices the call by parity",
+            "CFBlackScholes.digital and both butterfly methods: generated (np.where(fwd > strike, 1, 0) read as if Rltb strike fwd then 1 else 0); "
+            "bs_regular = the else-branch of _call_put as a function of sigma (equal to the generated bs_call_put there: clause 1 of C18_bs_sigma_to_zero)",
             "exponential-model layer (levy_exponent, omega, drift, log_characteristic_function, std_moment, mean, df): generated on the "
             "imaginary axis x = -iu by textual substitution 1j*x -> u; their composition exp_mgf is hand-written",
             "FFTPricer._call_prices (FFT, interpolation), the characteristic functions and cumulants: NOT modelled -- covered by the "
@@ -62,8 +71,8 @@ THEOREM_NOTES = {
                         "as the same free number on both sides -- that the sum itself is the right price is not proved",
     "C18_forward_martingale": "exponential-model layer generated on the imaginary axis x = -iu (1j*x -> u); composition exp_mgf hand-written",
     "C18_bs_closed_form_partial": "partial: lower bounds and monotonicity/convexity in K of the non-degenerate branch need the Gaussian "
-                                  "identity fwd*phi(d1) = K*phi(d2), not available for an abstract Phi; tested only; Phi_like is not "
-                                  "established for norm.cdf/PhiR (only the symmetry, C18_PhiR_symmetric)",
+                                  "identity fwd*phi(d1) = K*phi(d2), not available for an abstract Phi; tested only; Phi_like PhiR is "
+                                  "established since wave 5 (C18_PhiR_is_Phi_like)",
     "C18_cos_is_integral": "linearity of the integral over the finite cosine family, about the hand model cos_sum/cos_density (tied by Interval "
                            "cases on pricers with 3-5 terms); the series f_N is COSPricer.density only for K = S (see Model/CosSum.v)",
     "C18_density_is_series_specification": "cos_density_impl mirrors cosmethod.py:72-82 and is tied to COSPricer.density by Interval cases",
@@ -74,6 +83,24 @@ THEOREM_NOTES = {
                        "for HEM the second one is false (finite real beyond the pole); HEM and CGMY have generated class guards: C18_omega_guard_hem / _cgmy",
     "C18_density_integrates_to_A0": "shows that 'integrates to one' is structural (A_0 = Re cf(0) = 1), not evidence of accuracy",
     "C18_vg_is_cgmy": "real argument only (both u and 1 inside the strip); the raw exponents differ by theta*u, the exponential models agree",
+    "C18_cdf_is_truncated_mass": "for every n and every data A_k: cdf = (1 - A_0) + integral of the truncated series over [a,0]; the [0,1] clause is "
+                                 "conditional on f_N >= 0 (differential test only); A_k and the window are data, x = log(S/K) enters through A_k",
+    "C18_parity_all_N": "cos_u_call / cos_u_fwd are yardsticks (not code); the last clause says the code's parity-built call differs from the direct "
+                        "COS call by exactly the truncation error of the forward under the same series -- no bound on that error is proved",
+    "C18_butterfly": "algebra on the generated return expressions; non-negativity of the butterfly (convexity) is a differential test only",
+    "C18_window": "cumulants are data; the statement needs l > 0 and c2 > 0 only (Coq's sqrt of a negative number is 0, numpy's is nan: a negative "
+                  "c4 / c6 would make the implementation's window nan -- the harness reports a non-finite window as a violation)",
+    "C18_bs_digital": "over an abstract Phi_like Phi; instantiated at the Gaussian integral in C18_bs_at_gaussian_partial",
+    "C18_PhiR_is_Phi_like": "classical one-dimensional proof of the Gaussian integral bound (differentiation under the integral sign via "
+                            "Coquelicot is_derive_RInt_param, substitution u = x s, atan); discharges Phi_like for PhiR",
+    "C18_bs_at_gaussian_partial": "partial: the binding intrinsic legs (call >= df(F-K) for K < F, call >= 0 for K > F), monotonicity and convexity "
+                                  "of call/put in K need the Gaussian density identity F phi(d1) = K phi(d2) and remain differential tests",
+    "C18_bs_static_bounds_partial": "partial: only the non-binding leg of the intrinsic bound on each side of the forward; the binding legs need the "
+                                    "Gaussian identity (C18_bs_lower_bound_needs_gaussian: Phi = 1/2 meets Phi_like and prices a call negative)",
+    "C18_bs_lower_bound_needs_gaussian": "a statement about the ABSTRACTION (Phi = 1/2), not about the code: shows the partial theorem is sharp",
+    "C18_bs_sigma_to_zero": "epsilon-delta form; strikes off the forward only (K = F needs continuity of Phi at 0); hypothesis Phi -> 1 at +oo is not "
+                            "discharged for PhiR / norm.cdf",
+    "C18_PhiR_monotone": "integrand positive + Chasles; with C18_PhiR_symmetric and the range clause it gives Phi_like PhiR",
 }
 
 
@@ -89,7 +116,7 @@ CASE_HEADER = """From Coq Require Import Reals Lra.
 From Coquelicot Require Import Coquelicot.
 From Interval Require Import Tactic.
 From Coq Require Import List.
-From RV Require Import Base.RB Gen.GenC18Cos Model.Cos Model.CosSum Proofs.C18_Cos.
+From RV Require Import Base.RB Gen.GenC18Cos Model.Cos Model.CosSum Model.CosExt Proofs.C18_Cos Proofs.C18_Ext Proofs.C18_Bs.
 Import ListNotations.
 Open Scope R_scope.
 Ltac nondeg := unfold bs_degenerate, Rltb;
@@ -289,6 +316,116 @@ def _density_cases(res, rng, n_cases):
                 f"  interval with (i_prec 100).\nQed.")
         res.count(("density", name, n, S, s_val, T), kind="interval case density")
         lemmas.append((f"density {name} n={n} s={s_val}", text))
+    return lemmas
+
+
+def _ext_cases(res, rng, n_cases, viol):
+    """wave 5: (A) COSPricer._interval_a_b against the generated cos_window / cos_window_delta (cumulants fed as data, the bare except
+    re-enacted here), (B) the PUBLIC entry points put / call / digital / cdf of pricers with 3-5 terms against the compositions
+    cos_put_price / cos_call_price / cos_digital_price / cos_cdf_value of Model/CosExt.v (generated pieces + cos_sum), (C) COSPricer.butterfly
+    and CFBlackScholes.butterfly against the generated return expressions, (D) CFBlackScholes.digital in both branches against bs_digital."""
+    import numpy as np
+    from scipy.stats import norm
+    from rpylib.model import utils as U_
+    from rpylib.model.levymodel.levymodel import ModelType
+    from rpylib.numerical.cosmethod import COSPricer
+    from rpylib.numerical.closedform.cfblackscholes import CFBlackScholes
+    lemmas = []
+    names = ["BLACKSCHOLES", "HEM", "MERTON", "VG", "CGMY"]
+    unfold_all = ("unfold cos_call_price, cos_cdf_value, cos_put_price, cos_digital_price, cos_cdf, cos_call, cos_forward, cos_put, cos_digital, "
+                  "cos_pricing_formula, cos_put_coeffs, cos_digital_coeffs, cos_sum, cos_weight; simpl sum_f_R0; simpl nth; simpl INR; "
+                  "try unfold cos_u_put; try unfold cos_digital_vk; try replace (0 / 1) with 0 by field; "
+                  "rewrite cos_psi_zero; repeat (rewrite cos_psi_nonzero by lra); unfold psi_prim; try unfold cos_xi; cbv zeta beta; interval with (i_prec 100).")
+    for i in range(n_cases):
+        name = names[i % 5]
+        S, r, d, T = rng.choice([50.0, 100.0]), rng.choice([0.0, 0.02, 0.05]), rng.choice([0.0, 0.01]), rng.choice([0.25, 1.0, 2.0])
+        model = U_.helper_model(ModelType[name])(spot=S, r=r, d=d, **_sample(rng, name))
+        n, l = rng.choice([3, 4, 5]), rng.choice([10, 20])
+        cos = COSPricer(model, n=n, l=l)
+        a, b = (float(v) for v in cos._interval_a_b(t=T))
+        rep = dict(kind="ext", model=name, spot=S, r=r, d=d, maturity=T, n=n, l=l)
+        if not (math.isfinite(a) and math.isfinite(b) and a < b):
+            viol("COSPricer._interval_a_b does not return a finite window a < b", a=a, b=b, **rep)
+            continue
+        # (A) the window
+        cum = model.cumulant
+        c1, c2, c4 = float(cum.cumulant1(T)), float(cum.cumulant2(T)), float(cum.cumulant4(T))
+        c6 = 0.0
+        try:
+            c6 = float(cum.cumulant6(T))
+        except Exception:  # noqa  (the code's bare except)
+            pass
+        res.bump("window_c6", f"{name}: {'cumulant6 available' if c6 != 0.0 else 'c6 = 0 (raises or zero)'}")
+        res.bump("window_contains_0", f"{name}: {'yes' if a <= 0 <= b else 'NO'}")
+        tolw = 1e-12 * (1 + abs(a) + abs(b))
+        win = f"(cos_window {rlit(c1)} (cos_window_delta {rlit(l)} {rlit(c2)} {rlit(c4)} {rlit(c6)}))"
+        res.count(("window", name, l, T, c1, c2), kind="interval case truncation window")
+        lemmas.append((f"window {name} l={l} T={T}",
+                       f"Lemma case_w{i} : Rabs (fst {win} - {rlit(a)}) <= {rlit(tolw)} /\\ Rabs (snd {win} - {rlit(b)}) <= {rlit(tolw)}.\n"
+                       f"Proof. unfold cos_window, cos_window_delta; simpl fst; simpl snd; split; interval with (i_prec 100). Qed."))
+        # (B) public entry points on a few-term pricer
+        K = S * rng.choice([0.85, 1.0, 1.2])
+        x = math.log(S / K)
+        cst = np.arange(n) * np.pi / (b - a)
+        A = (cos.cf(t=T, x=cst) * np.exp(-1j * cst * model.x0_value()) * np.exp(1j * (x - a) * cst)).real
+        alist = "; ".join(rlit(float(v)) for v in A)
+        df, fwd = float(model.df(t=T)), float(S * model.mean(T))
+        ka = np.array([K])
+        which = ["put", "call", "digital", "cdf"][i % 4]
+        val = float({"put": lambda: cos.put(ka, T), "call": lambda: cos.call(ka, T), "digital": lambda: cos.digital(ka, T),
+                     "cdf": lambda: cos.cdf(time=T, x=ka)}[which]()[0])
+        Af = f"(fun k => nth k [{alist}] 0)"
+        term = {"put": f"cos_put_price 12345 {n - 1} {Af} {rlit(a)} {rlit(b)} {rlit(df)} {rlit(K)}",
+                "call": f"cos_call_price 12345 {n - 1} {Af} {rlit(a)} {rlit(b)} {rlit(df)} {rlit(fwd)} {rlit(K)}",
+                "digital": f"cos_digital_price 12345 {n - 1} {Af} {rlit(a)} {rlit(b)} {rlit(df)}",
+                "cdf": f"cos_cdf_value 12345 {n - 1} {Af} {rlit(a)} {rlit(b)} {rlit(df)}"}[which]
+        tol = 1e-11 * (1 + math.exp(b)) * (1 + (K if which in ("put", "call") else 0.0)) * (1 + float(np.sum(np.abs(A))))
+        if math.isfinite(val) and tol < 1e-3 * S:
+            res.count(("entry", name, n, l, which, S, K, T), kind=f"interval case COSPricer.{which} (public entry, few terms)")
+            lemmas.append((f"COSPricer.{which} {name} n={n} l={l}", f"Lemma case_e{i} : Rabs ({term} - {rlit(val)}) <= {rlit(tol)}.\nProof. {unfold_all} Qed."))
+        # (C) butterflies
+        k3 = [0.9 * K, K, 1.15 * K]
+        c = cos.call(np.array(k3), T)
+        bf = float(np.squeeze(cos.butterfly(k3[0], k3[1], k3[2], T)))
+        res.count(("butterfly", name, n, K, T), kind="interval case butterfly")
+        lemmas.append((f"COSPricer.butterfly {name}", f"Lemma case_f{i} : Rabs (cos_butterfly {rlit(float(c[0]))} {rlit(float(c[1]))} {rlit(float(c[2]))} - {rlit(bf)}) "
+                       f"<= {rlit(1e-12 * (1 + float(np.sum(np.abs(c)))))}.\nProof. unfold cos_butterfly; interval with (i_prec 100). Qed."))
+        if name == "BLACKSCHOLES":
+            cf = CFBlackScholes(model)
+            cc = [float(cf.call(k, T)) for k in k3]
+            bfc = float(cf.butterfly(k3[0], k3[1], k3[2], T))
+            lemmas.append(("CFBlackScholes.butterfly", f"Lemma case_fb{i} : Rabs (bs_butterfly {rlit(cc[0])} {rlit(cc[1])} {rlit(cc[2])} - {rlit(bfc)}) "
+                           f"<= {rlit(1e-12 * (1 + sum(abs(v) for v in cc)))}.\nProof. unfold bs_butterfly; interval with (i_prec 100). Qed."))
+    # (D) CFBlackScholes.digital, regular and degenerate branch
+    for i in range(max(2, n_cases // 3)):
+        r, d = rng.choice([0.01, 0.02, 0.05]), rng.choice([0.005, 0.01])
+        S, T = rng.choice([50.0, 100.0]), rng.choice([0.25, 1.0, 2.0])
+        degenerate = i % 2 == 1
+        sigma = 0.0 if degenerate else round(rng.uniform(0.1, 0.4), 2)
+        K = S * rng.choice([0.8, 1.25])
+        cf = CFBlackScholes(U_.helper_model(ModelType.BLACKSCHOLES)(spot=S, r=r, d=d, sigma=sigma))
+        v = float(np.squeeze(cf.digital(K, T)))
+        A4 = [rlit(x) for x in (r, d, S, sigma)]
+        args = " ".join(A4 + [rlit(K), rlit(T)])
+        Fx = f"({A4[2]} * exp (({A4[0]} - {A4[1]}) * {rlit(T)}))"
+        res.count(("bs-digital", r, d, S, sigma, T, K), kind="interval case closed-form digital")
+        if degenerate:
+            below = K < S * math.exp((r - d) * T)
+            text = (f"Lemma dg_{i} : bs_degenerate {A4[2]} {A4[3]} {rlit(T)} = true.\nProof. unfold bs_degenerate, Rltb. destruct (Rlt_dec 0 (1 / 100000000)); [reflexivity | exfalso; lra]. Qed.\n"
+                    f"Lemma case_dg{i} : Rabs (bs_digital PhiR {args} - {rlit(v)}) <= {rlit(1e-12)}.\nProof.\n  rewrite (bs_digital_degenerate PhiR _ _ _ _ _ _ dg_{i}).\n"
+                    + (f"  assert (HK : {rlit(K)} < {Fx}) by interval.\n  replace (Rltb {rlit(K)} {Fx}) with true by (symmetry; apply Rltb_true; exact HK).\n" if below else
+                       f"  assert (HK : {Fx} <= {rlit(K)}) by interval.\n  replace (Rltb {rlit(K)} {Fx}) with false by (symmetry; apply Rltb_false; exact HK).\n")
+                    + "  interval with (i_prec 60).\nQed.")
+        else:
+            sd = sigma * math.sqrt(T)
+            d2 = math.log(S * math.exp((r - d) * T) / K) / sd - 0.5 * sd
+            p2 = float(norm.cdf(d2))
+            d2e = f"(ln ({A4[2]} * exp (({A4[0]} - {A4[1]}) * {rlit(T)}) / {rlit(K)}) / ({A4[3]} * sqrt {rlit(T)}) - 1 / 2 * ({A4[3]} * sqrt {rlit(T)}))"
+            text = (f"Lemma dn_{i} : bs_degenerate {A4[2]} {A4[3]} {rlit(T)} = false.\nProof. nondeg. Qed.\n"
+                    f"Lemma case_dg{i} : Rabs (bs_digital PhiR {args} - {rlit(v)}) <= {rlit(1e-9)}.\nProof.\n  rewrite (bs_digital_nondegenerate PhiR _ _ _ _ _ _ dn_{i}). unfold bs_d2.\n"
+                    f"  assert (H2 : {rlit(Fraction(p2) - E11)} <= PhiR {d2e} <= {rlit(Fraction(p2) + E11)}) by (unfold PhiR; integral with (i_prec 60, i_relwidth 45)).\n"
+                    f"  set (p2 := PhiR {d2e}) in *.\n  interval with (i_prec 60).\nQed.")
+        lemmas.append((f"bs digital {'degenerate' if degenerate else 'regular'} S={S} K={K} T={T} sigma={sigma}", text))
     return lemmas
 
 
@@ -829,6 +966,7 @@ def correspond(res):
         simp = _simpson_cases(res, rng)
         bs = _bs_cases(res, rng, 6 if quick else 40)
         sums = _sum_cases(res, rng, 4 if quick else 20) + _density_cases(res, rng, 5 if quick else 20)
+        ext = _ext_cases(res, random.Random(res.seed + 18), 8 if quick else 40, viol)
         _degenerate_bs(res, viol)
         guard = _guard_cases(res, rng, viol)
         _fft_guard_cases(res, viol)
@@ -837,6 +975,7 @@ def correspond(res):
     _run_lemmas(res, "cases_coefficients", coef + simp + guard)
     _run_lemmas(res, "cases_bs", bs)
     _run_lemmas(res, "cases_sum", sums)
+    _run_lemmas(res, "cases_ext", ext)
 
 
 def search(res):
@@ -918,10 +1057,18 @@ LEVEL_TEXT = ("Proof, PARTIAL: Coq theorems (over R with Coquelicot; standard re
               "(y-a)/(b-a)) and cos(...) for every real k incl. k=0, so the put and digital coefficients are the exact cosine coefficients of "
               "the payoffs, independently of the uninitialised cells of np.divide, (3) the FFT weights are eta/3*(1,4,2,4,...), (4) the VG map "
               "C=1/nu, G=lambda_-, M=lambda_+, Y=0 gives raw exponents differing by theta*u and identical exponential models (real argument), "
-              "(5) closed-form upper bounds and degenerate branch over an abstract symmetric Phi (the Gaussian integral is proved symmetric, not "
-              "[0,1]-valued/monotone), (6) cdf = 1 - digital/df, (7) the COS pricing sum is the integral of the payoff against the cosine series "
-              "built from the same numbers (COSPricer.density only at K = S); put, digital >= 0 IF that series is >= 0 (never discharged). "
-              "Model and implementation are tied by ~70 Interval/integral case lemmas per run. NOT proved and reported only as differential "
+              "(5) closed-form upper bounds and degenerate branch over an abstract Phi_like Phi, and Phi_like is PROVED for the Gaussian integral PhiR "
+              "(symmetric, monotone, [0,1]-valued via (int_0^x e^{-t^2/2})^2 <= pi/2), so they hold at PhiR, (6) cdf = 1 - digital/df, (7) the COS pricing sum is the integral of the payoff against the cosine series "
+              "built from the same numbers (COSPricer.density only at K = S); put, digital >= 0 IF that series is >= 0 (never discharged); "
+              "(8) for every N: COSPricer.cdf = (1 - A_0) + the mass of the truncated series below the strike, digital = df (1 - cdf), and the call the "
+              "code builds by parity differs from the direct COS call by exactly the error of the same series on the forward (sum-level parity, "
+              "coefficients additive over the range); (9) butterfly = difference of two call spreads = put butterfly - df (K1 - 2 K2 + K3), COS and closed "
+              "form; (10) the truncation window [c1 - delta, c1 + delta] (generated) is non-degenerate for l, c2 > 0 and contains 0 iff |c1| <= delta; "
+              "(11) CFBlackScholes.digital (generated) is a discounted probability, non-increasing in the strike in both branches, call = df F Phi(d1) - K "
+              "digital; the non-binding legs of the intrinsic bounds (the binding ones provably do NOT follow from an abstract Phi); the degenerate "
+              "branch is the sigma -> 0+ limit of the regular one for strikes off the forward (Phi -> 1 at +oo assumed, not proved for PhiR). "
+              "Model and implementation are tied by ~100 Interval/integral case lemmas per run (incl. the window, the public entry points "
+              "put / call / digital / cdf of few-term pricers, butterflies, the closed-form digital in both branches). NOT proved and reported only as differential "
               "TESTS over a documented box: every price bound, monotonicity/convexity in the strike, digital bounds/monotonicity, density "
               "non-negative and integrating to one, truncation error, COS/FFT/closed-form and VG/CGMY price agreement.")
 LEVEL_NOTE = ("Trusted: Coq kernel, Coquelicot, Interval (reflexive interval arithmetic inside vm_compute); stdlib real/classical axioms; "
